@@ -470,14 +470,14 @@ def finish(chk, classify, write_evidence=True):
             if f["clause"] in seen:
                 continue
             seen.add(f["clause"])
-            path = write_replay(chk.cid, dict(property=chk.cid, kind="failing-input", failure=f,
+            path = write_replay(chk.cid, dict(property=chk.cid, kind="failing-input", seed=int(chk.seed), tier=chk.tier, failure=f,
                                               broken_obligations=broken_obl[:5],
                                               broken_correspondence={n: c["disagreements"][:3] for n, c in broken_corr.items()}))
             lines.append("VIOLATION property=%s replay=%s" % (chk.cid, path))
             violations += 1
     elif broken_obl or broken_corr:
         path = write_replay(chk.cid, dict(
-            property=chk.cid, kind="broken-proof-or-correspondence",
+            property=chk.cid, kind="broken-proof-or-correspondence", seed=int(chk.seed), tier=chk.tier,
             broken_obligations=broken_obl,
             broken_correspondence={n: dict(cases=c["cases"], disagreements=c["disagreements"][:10])
                                    for n, c in broken_corr.items()},
